@@ -4,12 +4,20 @@ writes /verif/seeded/README.md plus `checks_run` into each meta.json.  usage: se
 import json, os, subprocess, sys, re
 ROOT='/verif'
 REL={'C01':['C01','C03','C07'],'C02':['C02','C04','C08'],'C03':['C03'],'C04':['C04','C02'],'C05':['C05'],'C06':['C06'],'C07':['C07','C01'],'C08':['C08','C02'],'C09':['C09'],'C13':['C13'],'C14':['C14'],'C15':['C15'],'C16':['C16'],'C17':['C17'],'C18':['C18']}
-names=sorted(d for d in os.listdir(f'{ROOT}/seeded') if os.path.isdir(f'{ROOT}/seeded/{d}'))
+allnames=sorted(d for d in os.listdir(f'{ROOT}/seeded') if os.path.isdir(f'{ROOT}/seeded/{d}'))
+names=allnames
 if len(sys.argv)>1: names=[n for n in names if n in sys.argv[1:]]
 def sh(*a, **k): return subprocess.run(a, capture_output=True, text=True, **k)
 assert sh('git','-C','/repo','diff','--quiet').returncode==0, 'repo dirty'
 rev=sh('git','-C','/repo','rev-parse','--short=8','HEAD').stdout.strip()
+def row_of(n,meta):
+    runs=meta.get('checks_run',{}).get('runs',[])
+    det='; '.join(f"{x['check'].split()[1]}: {', '.join(x['violation_classes'][:3])}" for x in runs if x['exit']==1) or ('NOT REPORTED' if runs else 'not measured')
+    return (n,meta['breaks_property'],(meta.get('summary') or '')[:160].replace('|','/').replace('\n',' '),det)
 rows=[]
+for n in allnames:
+    if n not in names:
+        rows.append(row_of(n,json.load(open(f'{ROOT}/seeded/{n}/meta.json'))))
 for n in names:
     d=f'{ROOT}/seeded/{n}'; meta=json.load(open(f'{d}/meta.json')); prop=meta['breaks_property']
     r=sh('git','-C','/repo','apply',f'{d}/patch.diff')
@@ -25,9 +33,9 @@ for n in names:
         sh('git','-C','/repo','checkout','--','.')
     meta['checks_run']={'repo_head':rev,'runs':runs,'detected':any(x['exit']==1 for x in runs)}
     json.dump(meta,open(f'{d}/meta.json','w'),indent=1)
-    det='; '.join(f"{x['check'].split()[1]}: {', '.join(x['violation_classes'][:3])}" for x in runs if x['exit']==1) or 'NOT REPORTED'
-    rows.append((n,prop,meta.get('summary','')[:160].replace('|','/'),det))
-    print(n,det,flush=True)
+    r=row_of(n,meta); rows.append(r)
+    print(n,r[3],flush=True)
+rows.sort()
 with open(f'{ROOT}/seeded/README.md','w') as f:
     f.write(f"# Seeded changes\n\nWritten by independent sub-agents that were given only a property's text and a scratch worktree.\nEach was confirmed in a scratch worktree (confirm_mutant.sh): compiles, the existing tests of the touched crates pass,\nthe demonstration fails with the change and passes without it. Never committed to /repo. Detection measured by seedreport.py\nat /repo HEAD {rev} with the quick tier (exit 1 + VIOLATION line = reported).\n\n| name | property | change | reported by (quick tier): classes |\n|---|---|---|---|\n")
     for r in rows: f.write('| '+' | '.join(r)+' |\n')
